@@ -14,12 +14,12 @@ PROP = dict(
          "(2^63-1: seed+1 wraps), through consensus.NewElectionAlgorithm().SelectProducers with the observed rand.Perm tables handed to the model; "
          "momentum: histories on a real node (ZNN transfers between backers, delegate/undelegate, slot gaps from 10 s to > 2 ticks), then a valid next momentum built like pillar/worker_momentum.go, "
          "every single-field mutation of it raw and re-sealed by the elected key (version, chain id, hash, previous hash, height, timestamp = 0 / parent / earlier / off-grid / other slot / now+10 / now+12 / far future / >= 2^63, data, "
-         "changes hash, content and prefetched blocks added / dropped / duplicated / reversed / 101 headers, public key, signature), the same momentum signed or fully produced by each non-elected pillar and by a user, "
+         "changes hash, content and prefetched blocks added / dropped / duplicated / reversed / 101 headers, surplus prefetched blocks (made-up user block, contract send, a linked block of a named account, a named block twice), public key, signature), the same momentum signed or fully produced by each non-elected pillar and by a user, "
          "and correctly produced momentums on a stale parent, through Supervisor.ApplyMomentum + AddMomentumTransaction; error mapped by sentinel identity; "
          "schedule: GetMomentumProducer for every slot from before genesis to two ticks past the frontier (and off-grid instants) on the live (half of the runs: reorganised by 1..30) node, "
          "on a second node fed the chain through ChainBridge.InsertChain and on that node after a restart; a case is distinct by (function, input)",
     explanation="Theorems: an accepted momentum extends the frontier, is strictly later and at most 10 s ahead, its hash/changes-hash commit to content and executed changes, its signature verifies and its signer is the pillar "
-                "the election assigns to its slot (any other signer is rejected); for every configuration with at least one pillar and every permutation oracle the election returns exactly NodeCount registered pillars "
+                "the election assigns to its slot (any other signer is rejected), and it is presented with exactly the account blocks its content names (as many distinct blocks as headers, every header names one, per-address linking; also evaluated directly on every momentum the real verifier accepts); for every configuration with at least one pillar and every permutation oracle the election returns exactly NodeCount registered pillars "
                 "(no panic, fill-up loop terminates) and depends only on the set of delegations (sorting by (weight desc, name) is canonical); the slot lookup hits exactly slot (ts-start)/BlockTime; "
                 "the election cache keyed by proof hash answers like recomputation through any sequence of queries, evictions and rollbacks. "
                 "Modelled: SortPDByWeight.Less, ComputePillarDelegations, filterByWeight/filterRandom/shuffleOrder incl. fill-up loop and index panics, findSeed (int64 wrap), ticker.ToTick, genProofTime, "
